@@ -1318,7 +1318,10 @@ pub mod square_abs {
         a * a
     }
     pub fn com(a: Complex) -> f64 {
-        a.re * a.re + a.im * a.im
+        // The square root that the absolute value takes is rounded,
+        // so it must be taken here as well to give the same square
+        let abs = a.abs();
+        abs * abs
     }
     #[cfg(feature = "ga")]
     pub fn mv(a: crate::Multivector) -> f64 {
